@@ -733,11 +733,123 @@ fn check_resolve(case: &ResolveCase) -> Case {
     }
 }
 
+// ------------------------------------------------------------------------------------------
+// pase-purge: the purge of PASE sessions that runs on CommissioningComplete, RevokeCommissioning
+// and fail-safe expiry, on real session tables of every layout.
+
+#[derive(Debug, Clone, Serialize, Deserialize)]
+struct PurgeCase {
+    /// table layout in creation order: 0 = unsecured, 1 = PASE, 2 = CASE
+    layout: Vec<u8>,
+    /// which session (selector over the table) carries the triggering command and must be
+    /// preserved for its in-flight response; None = nobody (timer expiry)
+    keep: Option<u16>,
+    /// sessions removed (by id order selector) before the purge, so that the table has been
+    /// through swap-removes already
+    pre_remove: Vec<u16>,
+}
+
+fn purge_strategy() -> impl Strategy<Value = PurgeCase> {
+    (
+        prop::collection::vec(prop_oneof![1 => Just(0u8), 3 => Just(1u8), 2 => Just(2u8)], 1..15),
+        prop_oneof![1 => Just(None), 3 => any::<u16>().prop_map(Some)],
+        prop::collection::vec(any::<u16>(), 0..3),
+    )
+        .prop_map(|(layout, keep, pre_remove)| PurgeCase { layout, keep, pre_remove })
+}
+
+fn check_purge(case: &PurgeCase) -> Case {
+    vh::sim::reset_universe();
+    let c = mk_crypto(7);
+    let m = new_matter(5540);
+    let mut ids: Vec<(u32, u8)> = Vec::new();
+    for (i, k) in case.layout.iter().enumerate() {
+        let kind = match k {
+            0 => SessKind::Plain,
+            1 => SessKind::Pase,
+            _ => SessKind::Case,
+        };
+        let key = [i as u8 + 1; 16];
+        match vh::sim::node::plant_half(
+            &m,
+            &c,
+            kind,
+            if *k == 1 { 0 } else { 0x1000 + i as u64 },
+            if *k == 1 { 0 } else { 0x2000 + i as u64 },
+            0x100 + i as u16,
+            0x200 + i as u16,
+            vh::sim::net::alien_addr(i),
+            &key,
+            &key,
+            1,
+            Default::default(),
+        ) {
+            Ok(id) => ids.push((id, *k)),
+            Err(e) => return Case::inconclusive(format!("plant: {e:?}")),
+        }
+    }
+    // a few removals first (eviction, CloseSession): the table order is no longer creation order
+    for sel in &case.pre_remove {
+        if ids.len() > 1 {
+            let (id, _) = ids.remove(vh::util::pick(*sel, ids.len()));
+            m.with_state(|st| {
+                st.verif_sessions_mut().remove(id);
+            });
+        }
+    }
+    let before = sessions(&m);
+    let keep = case.keep.map(|sel| ids[vh::util::pick(sel, ids.len())]);
+    m.with_state(|st| st.verif_sessions_mut().remove_pase(keep.map(|k| k.0)));
+    let after = sessions(&m);
+
+    let is_pase = |s: &rs_matter::transport::session::verif::SessionSnapshot| matches!(s.mode, SessionMode::Pase { .. });
+    // 1. no PASE session survives, except the preserved one - which no longer accepts new exchanges
+    for s in &after {
+        if is_pase(s) {
+            if Some(s.id) != keep.map(|k| k.0) {
+                return Case::fail(
+                    "purge:pase-session-survived",
+                    format!("PASE session {} (local id {:#x}) is still in the table after the purge (preserved: {:?}); table before: {:?}", s.id, s.local_sess_id, keep, before.iter().map(|s| (s.id, is_pase(s))).collect::<Vec<_>>()),
+                );
+            }
+            if !s.expired {
+                return Case::fail(
+                    "purge:preserved-pase-session-not-expired",
+                    format!("the PASE session {} kept for the in-flight response still accepts new exchanges", s.id),
+                );
+            }
+        }
+    }
+    // 2. the preserved PASE session is still there (its response has to go out)
+    if let Some((id, 1)) = keep {
+        if !after.iter().any(|s| s.id == id) {
+            return Case::fail("purge:preserved-session-removed", format!("session {id} carrying the triggering command was removed"));
+        }
+    }
+    // 3. every other session is untouched
+    for b in before.iter().filter(|s| !is_pase(s)) {
+        match after.iter().find(|s| s.id == b.id) {
+            None => return Case::fail("purge:other-session-removed", format!("non-PASE session {} disappeared", b.id)),
+            Some(a) => {
+                if a.expired != b.expired || a.mode != b.mode || a.local_sess_id != b.local_sess_id || a.peer_sess_id != b.peer_sess_id || a.dec_key != b.dec_key {
+                    return Case::fail("purge:other-session-changed", format!("non-PASE session {} changed: {:?} -> {:?}", b.id, (b.expired, b.local_sess_id), (a.expired, a.local_sess_id)));
+                }
+            }
+        }
+    }
+    let n_pase = before.iter().filter(|s| is_pase(s)).count();
+    let mut labels = vec![format!("pase={}", n_pase.min(4))];
+    if matches!(keep, Some((_, 1))) {
+        labels.push("preserve-pase".into());
+    }
+    Case::pass(n_pase >= 2).labels(labels)
+}
+
 fn main() {
     let mut run = Run::new(
         "C20",
         "exploration",
-        "sequences of 1-27 session-establishment attempts against one device from four nodes (complete PASE/CASE, wrong passcode, initiator cancels after message k, initiator goes silent after message k, garbage in message k, concurrent starts), device handler tasks cancelled at generated instants, one established session kept in use by an open exchange; after the churn the clock advances 200 s and the session/exchange tables of all nodes are inspected, then a fresh node runs probe handshakes (PASE, CASE, PASE). Second sub-check: Exchange::initiate futures dropped while the single-slot mDNS resolve rendezvous is Requested/InFlight, then a legitimate resolve. Non-trivial: the device's session table reached capacity, or attempts were abandoned at >= 3 different steps (churn); at least one waiter dropped (rendezvous); distinct = distinct serialized case",
+        "sequences of 1-27 session-establishment attempts against one device from four nodes (complete PASE/CASE, wrong passcode, initiator cancels after message k, initiator goes silent after message k, garbage in message k, concurrent starts), device handler tasks cancelled at generated instants, one established session kept in use by an open exchange; after the churn the clock advances 200 s and the session/exchange tables of all nodes are inspected, then a fresh node runs probe handshakes (PASE, CASE, PASE). Second sub-check: Exchange::initiate futures dropped while the single-slot mDNS resolve rendezvous is Requested/InFlight, then a legitimate resolve. Third sub-check (pase-purge): real session tables of every layout (1-14 unsecured/PASE/CASE sessions, some removed first) go through the purge of PASE sessions that runs on CommissioningComplete / RevokeCommissioning / fail-safe expiry, with or without a session preserved for the in-flight response; non-trivial: at least two PASE sessions in the table. Non-trivial: the device's session table reached capacity, or attempts were abandoned at >= 3 different steps (churn); at least one waiter dropped (rendezvous); distinct = distinct serialized case",
     );
     run.assume("default table sizes (16 sessions, 5 exchanges per session); the max-sessions-3 build of the design is not part of the quick tier");
     run.assume("idle unsecured (plaintext) sessions without exchanges may linger until evicted, as in the CHIP SDK's unauthenticated-session pool: they are reclaimable on demand, which the probe handshakes verify");
@@ -746,5 +858,7 @@ fn main() {
     run.prop("handshake-churn", n, churn_strategy, check_churn);
     let n = run.cases(1_000, 40_000);
     run.prop("resolve-rendezvous", n, resolve_strategy, check_resolve);
+    let n = run.cases(200_000, 3_000_000);
+    run.prop("pase-purge", n, purge_strategy, check_purge);
     run.finish();
 }
